@@ -123,6 +123,9 @@ func runMergeRules(c *Ctx) {
 				case r.mergeTrip, r.mergeVeh:
 					acc := call.Call.Args[0]
 					m, key := resolveAccLookup(c, acc)
+					if m != nil {
+						m = callerMap(c, m) // a get-or-create-and-merge helper is handed the accumulator
+					}
 					m = mapCellOf(c, m)
 					if m == nil {
 						c.Violated("MERGE", r.fname, "merge target of "+shortName(staticCallee(call)), p.ipos(call), "merge target is not the accumulator looked up by the entity's id")
@@ -728,11 +731,11 @@ func runLinkRules(c *Ctx) {
 					switch staticCallee(call) {
 					case r.mergeTrip:
 						if m, _ := resolveAccLookup(c, call.Call.Args[0]); m != nil {
-							tripsMap = mapCellOf(c, m)
+							tripsMap = mapCellOf(c, callerMap(c, m))
 						}
 					case r.mergeVeh:
 						if m, _ := resolveAccLookup(c, call.Call.Args[0]); m != nil {
-							vehMap = mapCellOf(c, m)
+							vehMap = mapCellOf(c, callerMap(c, m))
 						}
 					}
 				}
@@ -1362,6 +1365,35 @@ func runPresenceByPointer(c *Ctx) {
 	if nTests == 0 {
 		c.Proved("GUARD", "gtfs", "presence of optional wire fields decided by the pointer", "-", fmt.Sprintf("%d blocks that write result fields: none is guarded by a comparison of an optional field's value with the zero value", n))
 	}
+}
+
+// callerMap: a map that a get-or-create-and-merge helper receives as a parameter is the map its callers pass (all
+// call sites the same one); anything else is returned as it is.
+func callerMap(c *Ctx, m ssa.Value) ssa.Value {
+	for hop := 0; hop < 3; hop++ {
+		prm, ok := m.(*ssa.Parameter)
+		if !ok || prm.Parent() == nil {
+			return m
+		}
+		idx := paramIndex(prm)
+		callers := c.P.Callers(prm.Parent())
+		if idx < 0 || len(callers) == 0 {
+			return m
+		}
+		var arg ssa.Value
+		for _, e := range callers {
+			args := e.Site.Common().Args
+			if idx >= len(args) {
+				return m
+			}
+			if arg != nil && mapCellOf(c, arg) != mapCellOf(c, args[idx]) {
+				return m
+			}
+			arg = args[idx]
+		}
+		m = arg
+	}
+	return m
 }
 
 // runOneZonePerMessage: a trip identifier carries its start date as a time.Time, and identifiers are map keys and are
